@@ -274,10 +274,14 @@ def replay_concrete(ob: Ob, args, nkeys=None):
 
 
 def _raised_in_repo(e):
+    """The innermost frame that is neither library code nor a beartype wrapper decides who raised."""
     tb = traceback.extract_tb(e.__traceback__)
-    return bool(tb) and tb[-1].filename.startswith("/repo/src") or any(
-        fr.filename.startswith("/repo/src") for fr in tb[-6:]
-    )
+    for fr in reversed(tb):
+        fn = fr.filename
+        if "site-packages" in fn or fn.startswith("<") or "/lib/python" in fn:
+            continue
+        return fn.startswith("/repo/src")
+    return False
 
 
 def selfcheck(ob: Ob, closed, n=2):
@@ -373,9 +377,16 @@ def decide(ob: Ob, pid: str, known: list) -> Result:
             # replay: the same call eagerly on the example inputs
             try:
                 ob.fn(*ob.args)
-                res.reproduced = False
-                res.verdict = "error"
-                res.detail += " (did not reproduce eagerly)"
+                try:
+                    # some failures need traced values: replay under jax.jit (still the real code)
+                    jax.jit(ob.fn)(*ob.args)
+                    res.reproduced = False
+                    res.verdict = "error"
+                    res.detail += " (did not reproduce eagerly nor under jit)"
+                except Exception as e3:  # noqa: BLE001
+                    res.reproduced = _raised_in_repo(e3)
+                    res.cex = {"raises": type(e3).__name__, "under": "jax.jit"}
+                    res.detail += " (eager call succeeds; raised under jax.jit)"
             except Exception as e2:  # noqa: BLE001
                 res.reproduced = _raised_in_repo(e2)
                 res.cex = {"raises": type(e2).__name__}
